@@ -292,7 +292,7 @@ def run(env):
         if env.out_of_time():
             env.notes.append("time cap reached in random part")
             break
-        g = gen_types.Gen(rng, max_depth=rng.choice([2, 3, 4, 4]), pattern_overlap=True)
+        g = gen_types.Gen(rng, max_depth=rng.choice([2, 3, 4, 4]), pattern_overlap=True, std=rng.random() < 0.15)  # std: UUID, date, Decimal, bytes, deque, ...
         t = g.type(0) if rng.random() < 0.5 else g.object(0)
         run_one(env, t, f"random#{env.shard}.{j}", nopts=2, ndata=40)
 
